@@ -11,7 +11,7 @@ case "${1:-}" in
   sync)
     mkdir -p $LAB
     if [ ! -d $LAB/repo ]; then git -C /repo worktree add -q --detach $LAB/repo HEAD || exit 2; fi
-    git -C $LAB/repo checkout -q --detach "$(git -C /repo rev-parse HEAD)" && git -C $LAB/repo checkout -q -- . && git -C $LAB/repo clean -qfd
+    git -C $LAB/repo checkout -q -- . && git -C $LAB/repo clean -qfd && git -C $LAB/repo checkout -q --detach "$(git -C /repo rev-parse HEAD)" || exit 2
     mkdir -p $LAB/verif
     rsync -a --delete --exclude .git --exclude harness/target --exclude out --exclude evidence --exclude seeded /verif/ $LAB/verif/
     grep -rl '/repo/' $LAB/verif/harness --include=Cargo.toml | xargs sed -i "s#\"/repo/#\"$LAB/repo/#g"
